@@ -154,11 +154,11 @@ func Returns(fn *ssa.Function) []*ssa.Return {
 type FactKind int
 
 const (
-	FNil      FactKind = iota // subject == nil  (true edge: subject is nil)
-	FOk                       // subject.Ok      (true edge: Ok is true)
-	FBool                     // subject         (true edge: subject is true)
-	FEqConst                  // subject == const / string(subject.Result) == const
-	FCmp                      // other comparison; Subject/Other are the operands
+	FNil     FactKind = iota // subject == nil  (true edge: subject is nil)
+	FOk                      // subject.Ok      (true edge: Ok is true)
+	FBool                    // subject         (true edge: subject is true)
+	FEqConst                 // subject == const / string(subject.Result) == const
+	FCmp                     // other comparison; Subject/Other are the operands
 )
 
 // Fact describes what taking the TRUE edge of an If establishes.
@@ -440,6 +440,8 @@ func OriginReachable(rs *ReachSet, cut func(*ssa.BasicBlock, int) bool, ret *ssa
 	return false
 }
 
+var successDepth int
+
 func mayBeSuccessOrigin(fn *ssa.Function, ret *ssa.Return, v ssa.Value, conv Conv) bool {
 	switch conv {
 	case ConvBoolTrue:
@@ -454,6 +456,34 @@ func mayBeSuccessOrigin(fn *ssa.Function, ret *ssa.Return, v ssa.Value, conv Con
 		if c, ok := v.(*ssa.Call); ok {
 			if ErrCtors[calleeFullRaw(c)] {
 				return false
+			}
+			// a helper whose every non-nil result is a failure value (e.g. `return boltvm.Error(..)` / `return nil`):
+			// its result is never a success value (nil is not a success for the response conventions)
+			if conv != ConvErrNil {
+				if g := StaticCallee(c); g != nil && len(g.Blocks) > 0 && g != fn && successDepth < 3 {
+					successDepth++
+					allFail := true
+					n := 0
+					for _, gret := range Returns(g) {
+						if len(gret.Results) != 1 {
+							allFail = false
+							break
+						}
+						for _, o := range RetOrigins(gret.Results[0]) {
+							if IsNilConst(o.V) {
+								continue
+							}
+							n++
+							if mayBeSuccessOrigin(g, gret, o.V, conv) {
+								allFail = false
+							}
+						}
+					}
+					successDepth--
+					if allFail && n > 0 {
+						return false
+					}
+				}
 			}
 		}
 		// a package-level error variable (ErrFoo = errors.New(..)) is a failure value
